@@ -7,6 +7,7 @@ import (
 	"fmt"
 	"math"
 	"strings"
+	"sync"
 
 	"github.com/bmeg/grip/kvi"
 	"github.com/bmeg/grip/log"
@@ -38,6 +39,20 @@ func containsPrefix(c string, s []string) bool {
 type KVIndex struct {
 	KV     kvi.KVInterface
 	Fields map[string][]string
+	// fieldLock guards Fields: graphs are created and dropped (AddField,
+	// RemoveField) while other requests index documents (AddDocTx)
+	fieldLock sync.RWMutex
+}
+
+// fields returns a copy of the indexed fields taken under the lock
+func (idx *KVIndex) fields() map[string][]string {
+	idx.fieldLock.RLock()
+	defer idx.fieldLock.RUnlock()
+	out := make(map[string][]string, len(idx.Fields))
+	for k, v := range idx.Fields {
+		out[k] = v
+	}
+	return out
 }
 
 // KVTermCount Get all terms and their counts
@@ -60,7 +75,9 @@ func NewIndex(kv kvi.KVInterface) *KVIndex {
 // AddField add new field to be indexed
 func (idx *KVIndex) AddField(path string) error {
 	fk := FieldKey(path)
+	idx.fieldLock.Lock()
 	idx.Fields[path] = strings.Split(path, ".")
+	idx.fieldLock.Unlock()
 	return idx.KV.Set(fk, []byte{})
 }
 
@@ -71,7 +88,9 @@ func (idx *KVIndex) RemoveField(path string) error {
 	ed := EntryPrefix(path)
 	idx.KV.DeletePrefix(fkt)
 	idx.KV.DeletePrefix(ed)
+	idx.fieldLock.Lock()
 	delete(idx.Fields, path)
+	idx.fieldLock.Unlock()
 	return idx.KV.Delete(fk)
 }
 
@@ -105,7 +124,7 @@ func (idx *KVIndex) AddDocTx(tx kvi.KVBulkWrite, docID string, doc map[string]in
 	sdoc := Doc{Entries: [][]byte{}}
 	docKey := DocKey(docID)
 
-	for field, p := range idx.Fields {
+	for field, p := range idx.fields() {
 		x := mapDig(doc, p)
 		if x != nil {
 			term, t := GetTermBytes(x)
